@@ -197,6 +197,7 @@ inductive Agent where
 structure Co where
   script : List Act
   waiting : Option Nat := none     -- serial of the pending sleep
+  woken : Option Nat := none       -- serial of the sleep that just completed (until the coroutine runs again)
   pendingCancel : Option (Nat × Bool) := none   -- suspended in `co_await cancel(id)`: (id, result)
 
 structure RState where
@@ -259,7 +260,7 @@ partial def runActs (r : RState) (k : Nat) : RState × Option Agent :=
             match victim with
             | none => (r.emit "LOST-VICTIM", none)
             | some v =>
-                let r := setCo r v { (r.cos[v]?.getD { script := [] }) with waiting := none }
+                let r := setCo r v { (r.cos[v]?.getD { script := [] }) with waiting := none, woken := some serial }
                 if awaited then
                   -- symmetric transfer to the victim, this coroutine goes to the back of the queue
                   let r := setCo r k { c with script := rest, pendingCancel := some (id, true) }
@@ -280,7 +281,7 @@ where
     | (s1, _) => ({ r with s := s1 }, none)
 
 /-- resume coroutine `k` -/
-def resumeCo (r : RState) (k : Nat) (wokenSerial : Option Nat) : RState × Option Agent :=
+def resumeCo (r : RState) (k : Nat) : RState × Option Agent :=
   match r.cos[k]? with
   | none => (r, none)
   | some c =>
@@ -290,18 +291,14 @@ def resumeCo (r : RState) (k : Nat) (wokenSerial : Option Nat) : RState × Optio
         runActs r k
     | none =>
         -- woken from a sleep: the outcome is the fate logged for its serial
-        let fate := match wokenSerial with
-          | some serial => (r.s.log.find? (fun d => d.serial == serial)).map (fun d => fateStr d.fate)
+        let fate : Option String := match c.woken with
+          | some serial => (r.s.log.find? (fun (d : Done) => d.serial == serial)).map (fun (d : Done) => fateStr d.fate)
           | none => none
-        let r := r.emit s!"W{k}@{r.clock}={fate.getD "?"}"
+        let r := (setCo r k { c with woken := none }).emit s!"W{k}@{r.clock}={fate.getD "?"}"
         runActs r k
 
-structure Woken where
-  k : Nat
-  serial : Nat
-
-/-- the ready queue holds (agent, serial it was woken for) -/
-partial def runQueue (r : RState) (woke : List (Nat × Nat)) (direct : Option Agent) : RState :=
+/-- the executor: run the agent transferred to directly, else the front of the FIFO ready queue, until it is empty -/
+partial def runQueue (r : RState) (direct : Option Agent) : RState :=
   let next : Option (Agent × List Agent) := match direct with
     | some a => some (a, r.q)
     | none => match r.q with
@@ -312,23 +309,21 @@ partial def runQueue (r : RState) (woke : List (Nat × Nat)) (direct : Option Ag
   | some (a, rest) =>
     let r := { r with q := rest }
     match a with
-    | Agent.stopper => runQueue { r with stop := true } woke none
+    | Agent.stopper => runQueue { r with stop := true } none
     | Agent.co k =>
-        let serial := (woke.find? (fun p => p.1 == k)).map (·.2)
-        let woke := woke.filter (fun p => p.1 != k)
-        let (r, d) := resumeCo r k serial
-        runQueue r woke d
+        let (r, d) := resumeCo r k
+        runQueue r d
     | Agent.worker =>
-        if r.stop then runQueue r woke none      -- `if (state.stop_requested()) break;` the worker coroutine ends
+        if r.stop then runQueue r none      -- `if (state.stop_requested()) break;` the worker coroutine ends
         else
           match step H r.s (Op.poll 0 r.clock) with
           | (s1, Res.expired e) =>
               let r := { r with s := s1 }
               match findCo r e.serial with
-              | none => runQueue ((r.emit "LOST-SLEEPER")) woke none
+              | none => runQueue ((r.emit "LOST-SLEEPER")) none
               | some k =>
-                  let r := setCo r k { (r.cos[k]?.getD { script := [] }) with waiting := none }
-                  runQueue { r with q := r.q ++ [Agent.co k, Agent.worker] } ((k, e.serial) :: woke) none
+                  let r := setCo r k { (r.cos[k]?.getD { script := [] }) with waiting := none, woken := some e.serial }
+                  runQueue { r with q := r.q ++ [Agent.co k, Agent.worker] } none
           | (s1, Res.next t) =>
               let r := { r with s := s1 }
               if r.q.isEmpty then
@@ -337,21 +332,20 @@ partial def runQueue (r : RState) (woke : List (Nat × Nat)) (direct : Option Ag
                 | some t =>
                     let r := r.emit s!"wait:{r.clock}->{t}"
                     let r := { r with clock := max r.clock t, s := (step H r.s (Op.wake 0)).1 }
-                    runQueue { r with q := r.q ++ [Agent.worker] } woke none
-              else runQueue { r with q := r.q ++ [Agent.worker], s := (step H r.s (Op.wake 0)).1 } woke none
+                    runQueue { r with q := r.q ++ [Agent.worker] } none
+              else runQueue { r with q := r.q ++ [Agent.worker], s := (step H r.s (Op.wake 0)).1 } none
           | (s1, _) => { r with s := s1 }
 
-/-- a cancelled sleeper is resumed with the serial that was cancelled: track it through `woke` too -/
 def runGo (scripts : List (List Act)) (t0 : Nat) : List String :=
   let r0 : RState := { clock := t0, cos := (scripts.map (fun sc => ({ script := sc } : Co))).toArray, live := scripts.length }
   let r0 := if scripts.isEmpty then { r0 with allDone := true } else r0
   -- creation: each coroutine runs up to its first suspension under its own temporary queue
   let r1 := (List.range scripts.length).foldl (fun r k =>
     let (r, d) := runActs r k
-    runQueue r [] d) r0
+    runQueue r d) r0
   -- start(all_done)
   let r2 := { r1 with started := true, stop := r1.allDone, q := [Agent.worker] }
-  let r3 := runQueue r2 [] none
+  let r3 := runQueue r2 none
   (r3.evs.toList ++ [s!"ret@{r3.clock}", dumpStr r3.s.heap])
 
 partial def loopRun (lines : Array String) (i : Nat) (t0 : Nat) (scripts : List (List Act)) : IO Nat := do
